@@ -12,7 +12,7 @@ for d in sorted(glob.glob("/verif/seeded/%s-*" % pid)):
             if line.strip().startswith("#"):
                 title = line.strip().lstrip("# ").strip(); break
     done.append(" - Seed %s: %s" % (os.path.basename(d), title))
-wt = "/tmp/wt5-%s" % pid
+wt = "/tmp/wt6-%s" % pid
 t = open("/verif/tools/dev/seed_prompt.txt").read()
 t = (t.replace("@PID@", pid).replace("@TITLE@", prop["title"]).replace("@STATEMENT@", prop["statement"])
       .replace("@QUANT@", prop["quantifier"]["text"]).replace("@WT@", wt).replace("@OUT@", out)
